@@ -15,22 +15,22 @@ func NewArrayPattern(elements ...FallbackPattern) ArrayPattern {
 }
 
 func (p ArrayPattern) Bind(ctx context.Context, local Scope, value Value) (context.Context, Scope, error) {
-	switch value.(type) {
-	case EmptySet:
-		if len(p.items) == 0 {
-			return ctx, EmptyScope, nil
-		}
-		return ctx, EmptyScope, fmt.Errorf("value [] is empty but pattern %s is not", p)
-	case GenericSet:
-		return ctx, EmptyScope, fmt.Errorf("value %s is not an array", value)
-	}
-
 	array, is := value.(Array)
+	if _, empty := value.(EmptySet); empty {
+		// The empty array: only ...rest and ?:fallback components can match it.
+		array, is = Array{}, true
+	}
 	if !is {
 		return ctx, EmptyScope, fmt.Errorf("value %s is not an array", value)
 	}
+	// An array pattern read as an expression builds a dense array starting at index 0, so it can
+	// only match such arrays.
+	if array.offset != 0 || array.count != len(array.values) {
+		return ctx, EmptyScope, fmt.Errorf("value %s is not a dense zero-based array", value)
+	}
 
 	extraElements := make(map[int]int)
+	hasFallback := false
 	for i, item := range p.items {
 		if _, is := item.pattern.(ExtraElementPattern); is {
 			if len(extraElements) == 1 {
@@ -43,7 +43,12 @@ func (p ArrayPattern) Bind(ctx context.Context, local Scope, value Value) (conte
 				return ctx, EmptyScope, fmt.Errorf("non-deterministic pattern is not supported yet")
 			}
 			extraElements[i] = array.Count() - len(p.items)
+			hasFallback = true
 		}
+	}
+	if hasFallback && len(p.items) < array.Count() {
+		// A fallback stands for at most one component.
+		return ctx, EmptyScope, fmt.Errorf("length of array %s longer than array pattern %s", array, p)
 	}
 
 	if len(p.items) > array.Count()+len(extraElements) {
